@@ -62,8 +62,23 @@ def split_and_parse(r, f, who, ty):
     r.require(len(ps) == 1 and ps[0].t.get("generic_args") == [ty], "%s:parse-type" % who, fn=f, detail="number parsed as %s (generic args %s)" % (ty, ps[0].t.get("generic_args") if ps else None))
     if ps:
         a = ps[0].arg(0)
-        trimmed = all(x[0] != "phi" for x in [a]) or True
-        alts = a[1] if a[0] == "phi" else (a,)
+
+        def alts_of(e):
+            # the parse input may come out of a (number, unit) pair built on several edges: project each alternative
+            e = strip(e)
+            if e[0] == "phi":
+                out = []
+                for x in e[1]:
+                    out.extend(alts_of(x))
+                return out
+            if e[0] == "field" and e[2].isdigit():
+                out = []
+                for x in alts_of(e[1]):
+                    x = strip(x)
+                    out.append(x[1][int(e[2])] if x[0] == "tuple" and int(e[2]) < len(x[1]) else ("field", x, e[2]))
+                return out
+            return [e]
+        alts = alts_of(a)
         okt = all(strip(x)[0] == "call" and strip(x)[1] == "core::str::<impl str>::trim" for x in alts)
         r.require(okt, "%s:number-trimmed" % who, fn=f, detail="parse input: %s" % show(a, 5))
         # Err edge of parse -> Err
@@ -80,7 +95,9 @@ def split_and_parse(r, f, who, ty):
         subj = tests[0][3]
         r.require(any(x[0] == "call" and x[1] == "core::str::<impl str>::trim" for x in walk(subj)), "%s:unit-trimmed" % who, fn=f, detail="unit operand: %s" % show(subj, 6))
         r.require(all(t[3] == subj for t in tests), "%s:same-unit-operand" % who, fn=f, detail="every comparison tests the same unit string")
-        r.require(all(t[2] == "ci" for t in tests), "%s:case-insensitive" % who, fn=f, detail="all unit comparisons use eq_ignore_ascii_case")
+        lowered = any(x[0] == "call" and x[1].rsplit("::", 1)[-1] in ("to_ascii_lowercase", "to_lowercase") for x in walk(subj))
+        r.require(all(t[2] == "ci" or (t[2] == "eq" and lowered and t[1] == t[1].lower()) for t in tests), "%s:case-insensitive" % who, fn=f,
+                  detail="unit comparisons use eq_ignore_ascii_case, or exact comparison of the lower-cased unit with lower-case keys")
     return tests
 
 
@@ -108,7 +125,9 @@ def run_cfg(ctx, p, cfg):
                 if kind == "mul":
                     vals.add(tables.fold_int(x.arg(1)))
                 elif kind == "some":
-                    vals.add(1)
+                    # Some(number) scales by 1; Some(<constant>) is the factor chosen for this unit (multiplied later)
+                    c = tables.fold_int(dict(x[3]).get("0")) if x[0] == "agg" else None
+                    vals.add(c if c is not None else 1)
                 else:
                     vals.add(None)
             got[key] = vals
@@ -136,7 +155,10 @@ def run_cfg(ctx, p, cfg):
             if rv["k"] == "bin" and rv["op"] in ("Mul", "MulWithOverflow", "Add", "AddWithOverflow", "Shl") and tables.fold_int(f._rvalue(rv, frozenset(), 30, b)) is None:
                 bad.append("%s @%s" % (rv["op"], s.get("at")))
         r.require(not bad, "no-unchecked-multiplication", fn=f, detail="non-constant unchecked/wrapping/saturating arithmetic: %s" % bad)
-        r.floor("checked_mul-sites", len(muls), 4)
+        # either one checked multiplication per scaled unit, or one multiplication by the factor looked up for the unit
+        table = ctx.extra.get("size_table", {})
+        by_factor = len(muls) >= 1 and all(any(x[0] == "as" and x[2] == "Some" or x[0] == "phi" for x in walk(m.arg(1))) or tables.fold_int(m.arg(1)) is not None for m in muls)
+        r.floor("checked_mul-sites", len(muls), 1 if (by_factor and len(muls) < 4) else 4)
         for n, c in enumerate(muls):
             a = deep_strip(c.arg(0))
             r.require(any(x[0] == "call" and x[1] == "core::str::<impl str>::parse" for x in walk(a)), "mul-of-parsed-number#%d" % n, fn=f, site=c.at, detail="multiplicand %s" % show(a, 4))
@@ -153,7 +175,17 @@ def run_cfg(ctx, p, cfg):
                     st = si.target_of("Some")
                     okr = [e for b, e in q.ret_assignments(f) if b in f.reach(st, include_src=True) and q.classify_ret(e) == "ok"]
                     r.require(bool(okr) and all(any(x[0] == "as" and x[2] == "Some" for x in walk(e)) for e in okr), "product-returned", fn=f, detail="Some(n) is returned as Ok(n)")
-        r.require(found, "overflow-edge-present", fn=f, detail="a match on the checked product exists")
+        if not found:
+            # `number.checked_mul(k).ok_or_else(|| error)` returned (directly or through `?`)
+            for c in f.calls():
+                if (c.callee or "") in ("core::option::Option::<T>::ok_or_else", "core::option::Option::<T>::ok_or") and any(
+                        x[0] == "call" and x[1].endswith("::checked_mul") for x in walk(c.arg(0))):
+                    rets = [e for b, e in q.ret_assignments(f) if any(x[0] == "call" and len(x) > 3 and x[3] == c.block for x in walk(e))]
+                    if rets:
+                        found = True
+                        r.ok("overflow-rejected", fn=f, site=c.at, detail="None of the checked product becomes the returned Err (ok_or_else)")
+                        r.ok("product-returned", fn=f, site=c.at, detail="Some(n) is returned as Ok(n)")
+        r.require(found, "overflow-edge-present", fn=f, detail="the None of the checked product is turned into an error")
 
     with ctx.rule("L3", "numbers", cfg) as r:
         f = p.fn(SIZE_V + "visit_str")
